@@ -52,6 +52,8 @@ type cmpCase struct {
 	B cmpVal `json:"b"`
 }
 
+var cmpLocalCount int
+
 var cmpData = map[string]interface{}{"np": (*int)(nil), "nn": nil}
 
 // checkCmp evaluates the eight operators on (A,B) and checks every law that applies.
@@ -59,6 +61,18 @@ func checkCmp(c cmpCase) string {
 	a, b := c.A.text(), c.B.text()
 	f := fmt.Sprintf("[(%s) < (%s), (%s) == (%s), (%s) > (%s), (%s) <= (%s), (%s) >= (%s), (%s) != (%s), (%s) === (%s), (%s) !== (%s)]", a, b, a, b, a, b, a, b, a, b, a, b, a, b, a, b)
 	out := obs.EvalText(f, cmpData)
+	// the same eight comparisons with both operands held in locals: a bound value compares like the value
+	cmpLocalCount++
+	if cmpLocalCount%3 == 0 && out.Err == nil && out.Panic == nil {
+		lf := fmt.Sprintf("$p = (%s), $q = (%s), [$p < $q, $p == $q, $p > $q, $p <= $q, $p >= $q, $p != $q, $p === $q, $p !== $q]", a, b)
+		d := map[string]interface{}{}
+		for k, v := range cmpData {
+			d[k] = v
+		}
+		if lo := obs.EvalText(lf, d); lo.String() != out.String() {
+			return fmt.Sprintf("%s gives %s, but with the operands bound to locals first, %s gives %s", f, out, lf, lo)
+		}
+	}
 	arr, ok := out.Val.([]interface{})
 	if out.Panic != nil || out.Err != nil || !ok || len(arr) != 8 {
 		return fmt.Sprintf("%s -> %s", f, out)
